@@ -231,14 +231,18 @@ func cmdCheck(args []string) int {
 			if len(tries) > maxTries {
 				tries = tries[:maxTries]
 			}
+			classStart := time.Now()
 			for _, v := range tries {
+				if time.Since(classStart) > 6*time.Minute {
+					break // replay budget of one counterexample class: what did not reproduce by now stays unconfirmed
+				}
 				replays++
 				p, _ := writeReplay(spec, u, tc, v, v.Kind+":"+v.Msg, replays, filepath.Join("last", spec.ID))
 				attempts := 1
 				if u.Sched != "" && u.Sched != "runtoblock" {
 					attempts = 30
 				}
-				for a := 0; a < attempts && confirmed == ""; a++ {
+				for a := 0; a < attempts && confirmed == "" && time.Since(classStart) <= 6*time.Minute; a++ {
 					last = nb.run(p)
 					if confirms(v, last) {
 						confirmed = p
